@@ -243,7 +243,12 @@ func (f *FibStrategyHashTable) FindNextHopsEnc(name enc.Name) []*FibNextHopEntry
 	for pfx := len(entry.name); pfx >= 0; pfx-- {
 		val, ok := f.realTable[prefixHash[pfx]]
 		if ok && len(val.nexthops) > 0 {
-			return val.nexthops
+			// Return a copy: the caller uses the list outside the lock,
+			// while RemoveNextHopEnc and InsertNextHopEnc modify the
+			// entry's own slice in place
+			nexthops := make([]*FibNextHopEntry, len(val.nexthops))
+			copy(nexthops, val.nexthops)
+			return nexthops
 		}
 	}
 
